@@ -68,7 +68,7 @@ func BytesN(b []byte) string {
 	for i, c := range b {
 		xs[i] = fmt.Sprintf("%d", c)
 	}
-	return "[" + strings.Join(xs, ";") + "]"
+	return "([" + strings.Join(xs, ";") + "])%N"
 }
 
 // ---- meta ----
@@ -122,7 +122,13 @@ func (m *Meta) Sample(x interface{}) {
 	}
 }
 func (m *Meta) Violate(v Violation) {
-	if len(m.Violations) < 50 {
+	n := 0
+	for _, x := range m.Violations {
+		if x.Signature == v.Signature && x.Property == v.Property {
+			n++
+		}
+	}
+	if n < 5 {
 		m.Violations = append(m.Violations, v)
 	}
 }
